@@ -314,6 +314,17 @@ pub fn close(got: f64, exp: f64) -> bool {
     (got - exp).abs() <= 1e-9 * exp.abs().max(1.0)
 }
 
+/// like `close`, with the tolerance relative to the magnitude of the operands (sums that cancel)
+pub fn close_scaled(got: f64, exp: f64, scale: f64) -> bool {
+    if got == exp {
+        return true;
+    }
+    if !got.is_finite() || !exp.is_finite() {
+        return false;
+    }
+    (got - exp).abs() <= 1e-9 * exp.abs().max(1.0).max(scale.abs())
+}
+
 /// Render an f64 as a decimal literal without exponent (shortest round-trip digits).
 pub fn plain_f64(v: f64) -> String {
     // Rust's Display for f64 never uses an exponent
